@@ -103,6 +103,7 @@ class Engine:
         self.discharged = 0
         self.unknown = 0
         self.violations = []
+        self.nfail = 0
         self.viol_per_clause = {}
         self.clauses = {}
         self.assumptions = []
@@ -365,6 +366,7 @@ class Engine:
             return True
         if r == "sat":
             st["violated"] += 1
+            self.nfail += 1
             n = self.viol_per_clause.get(clause, 0)
             self.viol_per_clause[clause] = n + 1
             if n < self.max_viol_per_clause:
@@ -412,6 +414,7 @@ class Engine:
                 st = self.clauses.setdefault(crash_clause, dict(obligations=0, discharged=0, violated=0, unknown=0))
                 st["obligations"] += 1
                 st["violated"] += 1
+                self.nfail += 1
                 n = self.viol_per_clause.get(crash_clause, 0)
                 self.viol_per_clause[crash_clause] = n + 1
                 if n < self.max_viol_per_clause:
@@ -765,13 +768,13 @@ class SN(Sym):
         if self.isint:
             return self
         if E.fork(self.e >= 0):
-            return SN.of(E.conc_floor(self.e))
-        return SN.of(-E.conc_floor(-self.e))
+            return _floor_term(self.e)
+        return -_floor_term(-self.e)
 
     def floor(self):
         if self.isint:
             return self
-        return SN.of(E.conc_floor(self.e))
+        return _floor_term(self.e)
 
     def rint(self):
         """round half to even (numpy), result is a real numeral"""
@@ -813,6 +816,53 @@ class SN(Sym):
         if c is None:
             raise Unsupported("float() of a symbolic value at a C boundary")
         return float(c)
+
+
+def _int_linear(e):
+    """e == to_real(i) + c with i an Int term and c a rational constant?  -> (i or None, c) else None"""
+    v = z3val(e)
+    if v is not None and not isinstance(v, bool):
+        return None, Fraction(v)
+    if not z3.is_app(e):
+        return None
+    k = e.decl().kind()
+    if k == z3.Z3_OP_TO_REAL:
+        return e.arg(0), Fraction(0)
+    if k == z3.Z3_OP_ADD:
+        it, c = None, Fraction(0)
+        for ch in e.children():
+            r = _int_linear(ch)
+            if r is None:
+                return None
+            if r[0] is not None:
+                it = r[0] if it is None else it + r[0]
+            c += r[1]
+        return it, c
+    if k == z3.Z3_OP_UMINUS:
+        r = _int_linear(e.arg(0))
+        if r is None:
+            return None
+        return (None if r[0] is None else -r[0]), -r[1]
+    if k == z3.Z3_OP_MUL and e.num_args() == 2:
+        a, b = e.arg(0), e.arg(1)
+        va = z3val(a)
+        if va is not None and Fraction(va).denominator == 1:
+            r = _int_linear(b)
+            if r is not None:
+                n = int(va)
+                return (None if r[0] is None else n * r[0]), n * r[1]
+    return None
+
+
+def _floor_term(e):
+    """floor of a Real term as SN int: symbolic when the term is integer-valued plus a constant,
+    otherwise concretised through real interval constraints (never a to_int term)"""
+    r = _int_linear(z3.simplify(e))
+    if r is not None:
+        it, c = r
+        fl = math.floor(c)
+        return SN.of(fl) if it is None else SN(it + fl)
+    return SN.of(E.conc_floor(e))
 
 
 # sentinel numerals: digit strings standing for symbolic non-negative ints in formatted text
